@@ -15,7 +15,7 @@ from vlib import advexec, gen, storetrace
 
 PROPERTY = "C05"
 LEVEL = "exploration"
-TIMEOUT = {"quick": 900, "thorough": 5400}
+TIMEOUT = {"quick": 1500, "thorough": 7200}
 RULE = (
     "recipes from vlib.gen.Gen biased to rechunks (regular and allow_irregular, multi-stage under small allowed_mem), "
     "multi-output ops and reductions with structured intermediates; every task runs one at a time with attribution. "
